@@ -9,6 +9,15 @@ CHECKS = {
  "C16": ("model_checking", "TLA+ spec Split.tla: TLC exhaustive (t<=200,w<=40) + Apalache for unbounded integers; trace validation (Trace_C16) of the shares observed from mpi_plain/mpi_vegas/mpi_multi_channel under a thread-based MPI shim and of discard_before/discard_after up to 2^40",
          "The tiling formulas are proved for unbounded integers (Apalache/Z3) and checked exhaustively for small values (TLC); the implementation is bound to the property-level state machine ShareOK by TLC validating every share the real integrators took (which stream position the first point of each rank came from, how many points, where the generator ended).",
          "TLC, Apalache+Z3, the MPI shim (threads as ranks), position-revealing counter engine", "5/C16"),
+ "C09": ("model_checking", "TLA+ spec Select.tla: TLC theorems (unique enabled owner, P(i)=w_i on the full lattice, as-coded pick = owner); trace validation (Trace_C09) of every selection made by hep::discrete_distribution and by hep::multi_channel (channel seen by map and integrand, enabled list) under a scripted engine at 0, 1-ulp, all cumulative boundaries and neighbours",
+         "Admissible(w,u) is the property; TLC evaluates it on every recorded selection (three numeric types, unnormalised weights, totals up to 100, raw generator extremes) and on full-lattice counts.",
+         "TLC; script_engine -> canonical number j/2^24 exactly (libstdc++ generate_canonical); boundary tolerance of one 2^-24 lattice step", "5/C09"),
+ "C08": ("model_checking", "TLA+ spec Refine.tla (weights): TLC proves WeightsOK(RefineW) on the bounded rational model; trace validation (Trace_C08) compares multi_channel_refine_weights / checkpoint normalisation with the spec's exact rationals and checks the invariants on random cases and on every iteration of real multi-channel runs",
+         "Exact rational oracle in TLA+ for beta in {1,1/2,1/4} (perfect powers, power-of-two data scaling); invariants (probability vector, never re-enabled, floor, unchanged on no information) for arbitrary beta/data/min and along real runs.",
+         "TLC; libm pow exact on perfect powers; floor(v*2^20) projection with 2 units tolerance; proportionality for irrational powers not checked beyond invariants", "5/C08"),
+ "C07": ("model_checking", "TLA+ spec Refine.tla (grid): TLC proves GridRefineOK(Walk) and the inverse-CDF laws on the bounded rational model; trace validation (Trace_C07) of vegas_refine_pdf / vegas_icdf / default grids / real runs: exact share law for alpha=0 dyadic cases, validity + driver-evaluated shares for general alpha, unchanged grid on no data",
+         "The share law F(new_j) = j/B is evaluated by TLC in integers on every alpha=0 case (grids over k/8, data {0..3}^B); for alpha != 0 the damped importance is evaluated by the driver in long double and TLC checks the reported deviation, validity and no-information clauses on chains of up to 200 refinements and real adaptive runs.",
+         "TLC; long double evaluation of ((r-1)/ln r)^alpha in the driver for the general-alpha share clause; floor(x*2^16) projection", "5/C07"),
 }
 
 NOT_YET = {}
